@@ -13,6 +13,7 @@ package schedule
 // ---------------------------------------------------------------- const
 
 //@ func NewConst
+//@ modifies nothing
 //@ requires duration >= 1000000
 //@ at call constDoAt assert [rate] arg(ops) == max(ops0, 0.0)
 //@ at call NewDoAtSchedule assert [duration] arg(duration) == duration0
@@ -26,11 +27,13 @@ package schedule
 //@ ensures [not-before-start] result >= 0
 
 //@ func constDoAt
+//@ modifies nothing
 //@ requires ops >= 0.0
 
 // ---------------------------------------------------------------- line
 
 //@ func NewLine
+//@ modifies nothing
 //@ requires from >= 0.0 && to >= 0.0 && duration >= 1000000
 //@ at call NewConst assert [flat] arg(ops) == from0 && arg(duration) == duration0
 //@ at call lineDoAt assert [slope] arg(a) == (to0-from0)/secs(duration0) && arg(b) == from0
@@ -38,6 +41,7 @@ package schedule
 //@ at call NewDoAtSchedule assert [count] arg(n) == floor(Iline(from0, to0, secs(duration0), secs(duration0)))
 
 //@ func lineDoAt
+//@ modifies nothing
 //@ requires a != 0.0
 
 //@ func lineDoAt#lit0
@@ -52,6 +56,7 @@ package schedule
 // ---------------------------------------------------------------- once
 
 //@ func NewOnce
+//@ modifies nothing
 //@ at call NewDoAtSchedule assert [all-at-start] arg(duration) == 0 && arg(n) == n0
 
 //@ func NewOnce#lit0
@@ -60,6 +65,7 @@ package schedule
 // ---------------------------------------------------------------- doAt schedule
 
 //@ func NewDoAtSchedule
+//@ modifies nothing
 //@ props C01 C02
 //@ ensures typeis(result, *doAtSchedule) && fresh(result.(*doAtSchedule))
 //@ ensures result.(*doAtSchedule).duration == duration && result.(*doAtSchedule).n == n
@@ -72,7 +78,7 @@ package schedule
 //@ func (s *StartSync) MarkStarted
 //@ props C01 C02
 //@ may_panic s.started
-//@ ensures s.started
+//@ ensures [returns-only-if-first] !old(s.started) && s.started
 //@ modifies s.started
 
 //@ func (s *doAtSchedule) Next
@@ -83,13 +89,16 @@ package schedule
 //@ ensures [exhausted] imp(old(s.i) >= s.n, !ok && tx == s.start + s.duration)
 //@ ensures [start-kept] imp(old(once(s.startOnce)), s.start == old(s.start))
 //@ ensures s.started && once(s.startOnce)
+//@ modifies s.i, s.start, s.started, s.startOnce
 
 //@ func (s *doAtSchedule) Start
 //@ props C01 C02
 //@ requires s.started == once(s.startOnce)
 //@ may_panic s.started
 //@ ensures s.start == startAt && s.started && once(s.startOnce)
+//@ modifies s.start, s.started, s.startOnce
 
 //@ func (s *doAtSchedule) Left
+//@ modifies nothing
 //@ props C01 C02
 //@ ensures [exact] result == max(0, s.n - s.i)
